@@ -13,6 +13,9 @@ import z3
 
 
 def run(ses):
+    from pyvc import frame as _frame
+
+    _frame.purity_obligation(ses)
     deductive(ses)
     bounded(ses)
     ses.trust("pyvc engine", "xarray.DataTree.from_dict / Dataset / set_coords (T6, exercised in the bounded part)")
